@@ -43,6 +43,7 @@
 #include <cstdint>
 #include <cstring>
 #include <limits>
+#include <cstdlib>
 #include <iomanip>
 #include <locale>
 #include <sstream>
@@ -1224,8 +1225,28 @@ void io_string_wrappers()
   }
 }
 
+// The locale-less wrappers (narrow, widen, from/to_std_wstring) use std::locale("") - the environment AT THE TIME OF THE
+// CALL (string.doxygen).  The very first conversions of this process run while the environment names the C locale; the
+// environment is then switched back to the UTF-8 locale the driver set, and every later env-locale check must see it.
+void first_conversions_under_another_environment()
+{
+  char const *const old = std::getenv("LC_ALL");
+  std::string const saved = old ? old : "";
+  ::setenv("LC_ALL", "C", 1);
+  auto const n = fcppt::narrow(std::wstring(L"plain ascii"));
+  std::wstring const w = fcppt::widen("plain ascii");
+  if (!n.has_value() || n.get_unsafe() != "plain ascii" || w != L"plain ascii")
+    vf::violation("utf8/env-locale/ascii-under-the-C-locale", "mismatch", "");
+  if (old)
+    ::setenv("LC_ALL", saved.c_str(), 1);
+  else
+    ::unsetenv("LC_ALL");
+  vf::count("utf8/env-locale/first-conversions-under-LC_ALL=C");
+}
+
 void body()
 {
+  first_conversions_under_another_environment();
   for (char const *b : {"io/write-read", "vector/sequences-in-one-stream", "vector/non-decimal-base-roundtrips", "io/read-from-failed-stream", "io/write-to-full-device", "text/conversions-after-a-flag-changing-or-nested-conversion", "utf8/invalid-wide/reported-as-failure", "utf8/stateful-facet/strings", "text/grouping-locale/written-with-separator", "text/roundtrips", "text/char-types", "text/malformed", "enum/roundtrips", "enum/non-names",
                         "vector/roundtrips", "vector/malformed", "utf8/strings", "utf8/scalars-singly", "utf8/narrow-growth/x4",
                         "utf8/narrow-growth/x2-3", "utf8/narrow-growth/lt-x2", "utf8/incomplete-input", "utf8/invalid-input",
